@@ -202,6 +202,11 @@ def arrays(node):
     if k == "Tridiagonal":
         n = node["n"]
         rng = rng_for("tridiag", node["seed"], n, dt)
+        if node.get("dominant"):  # strictly diagonally dominant (cond <= 3); "sym": Hermitian positive definite
+            al = ints(rng, (max(n - 1, 0), ), dt, -1, 1)
+            ga = al.conj() if node.get("sym") else ints(rng, (max(n - 1, 0), ), dt, -1, 1)
+            be = (4 * np.ones(n)).astype(DT[dt])
+            return {"alpha": al, "beta": be, "gamma": ga}
         return {"alpha": ints(rng, (max(n - 1, 0), ), dt), "beta": ints(rng, (n, ), dt),
                 "gamma": ints(rng, (max(n - 1, 0), ), dt)}
     if k == "Permutation":
